@@ -267,7 +267,7 @@ func TestVerif_AbortNoTrace(t *testing.T) {
 	r.Require("aborts", "commits", "query_checks", "watch_verdicts")
 	// "gc": an aborted Changes() must not leave a tracker behind - nothing may be retained on behalf of an iterator that was never committed
 	o := dbsim.Opts{Tables: 2, Txns: 36, MaxOps: 8, ProbesPerIndex: 3, AbortPct: 45, Iterators: true, Watches: 24, Retain: 6, AnyTable: false, Quiesce: true, Initializers: true,
-		Report: map[string]bool{"abort": true, "abortwatch": true, "frozen": true, "gc": true, "changes/uncommitted-update": true, "changes/uncommitted-delete": true}}
+		Report: map[string]bool{"abort": true, "abortwatch": true, "frozen": true, "gc": true, "changes/uncommitted-update": true, "changes/uncommitted-delete": true, "query/retained-wtxn-seq": true}}
 	dbsim.BubbleCases(t, r, vkit.N(1000, 40000), o, func(s *dbsim.Sim) bool { return s.Aborts() > 0 && s.Commits() > 0 })
 	r.Finish()
 }
